@@ -278,6 +278,7 @@ class Connection:
         self.c2s = Pipe(self, "c2s", pol_c2s)
         self.s2c = Pipe(self, "s2c", pol_s2c)
         self.peer_dead = False  # server side was killed by a cut
+        self.server_streams: Any = None
         self.opened_at = net.loop.time()
 
     def pipe_from(self, tr: SimStreamTransport) -> Pipe:
@@ -539,6 +540,8 @@ class SimNet:
 
         cr, cw = mk(conn.c)
         sr, sw = mk(conn.s)
+        # like asyncio's server-side StreamReaderProtocol, keep the streams alive after the handler returned
+        conn.server_streams = (sr, sw)
         if self.on_accept is not None:
             self.on_accept(conn)
         task = loop.create_task(srv.cb(sr, sw))
